@@ -214,6 +214,8 @@ def streams_for(prop, seed, tier, boost=1):
         add('henc', ops)
         add('henc-extra', genmod.huff_extra_stream(G('hx')))
         add('huff-alignment', genmod.huff_alignment_catalogue())
+        pw = genmod.huff_power_length_strings(17 if T else 15)
+        add('huff-power-lengths', ['hrt ' + genmod.hx(x) for x in pw] + ['henc ' + genmod.hx(x) for x in pw[:40]])
         add('hrt-large', ['hrt ' + genmod.hx(bytes(0x80 + (j * 7) % 128 for j in range(14000))),
                           'hrt ' + genmod.hx(bytes(g.rnd.randrange(256) for _ in range(29000))),
                           'hrt ' + genmod.hx(b'plain ascii text ' * 3300)])
@@ -319,6 +321,8 @@ def streams_for(prop, seed, tier, boost=1):
         add('conn-evict', evict_stream(G('ev'), 12 * k))
         add('enc-big-tables', genmod.big_table_encoder_stream(G('bt')))
         add('api-forms-conn', genmod.api_forms_conn_stream(G('af'), n=15 * k))
+        if prop == 'C03':
+            add('conn-power-lengths', genmod.power_length_conn_stream(full=T))
         add('coincidences', genmod.coincidence_stream(G('co')))
         add('call-orders', genmod.call_order_stream())
         add('enccat-debuglog', genmod.with_debug_log(G('enccat').enc_catalogue()))
@@ -351,6 +355,7 @@ def streams_for(prop, seed, tier, boost=1):
         add('api-forms-conn', genmod.api_forms_conn_stream(G('af'), n=20 * k))
         add('enc-big-tables', genmod.big_table_encoder_stream(G('bt')))
         add('conn-big-binary', genmod.big_binary_conn_stream(G('bb')))
+        add('conn-power-lengths', genmod.power_length_conn_stream(full=T))
         add('coincidences', genmod.coincidence_stream(G('co')))
         add('call-orders', genmod.call_order_stream())
         add('conn-debuglog', genmod.with_debug_log(G('conn2').conn_stream(n_conn=10 * k, start_id=700)))
